@@ -407,3 +407,249 @@ Section PartitionTotal.
         eauto.
   Qed.
 End PartitionTotal.
+
+(* ====================================================================================== *)
+(* eigenvector_centrality (eigenvector.rs), C18: for ANY number structure (the executed binary64
+   instance, Coq's reals, ...): no law of arithmetic is used *)
+From GV Require Import Model.Eigen Proofs.EigenOk Proofs.EigenMatrix Proofs.EigenWF.
+
+Section EigenTotal.
+  Context {T A : Type}.
+  Variable teqb : T -> T -> bool.
+  Variable tltb : T -> T -> bool.
+  Hypothesis teqb_spec : forall x y, teqb x y = true <-> x = y.
+  Hypothesis tltb_asym : forall x y, tltb x y = true -> tltb y x = false.
+  Hypothesis tltb_total : forall x y, tltb x y = false -> tltb y x = false -> x = y.
+  Variable F : Num.
+  Notation gstate := (gstate T A).
+  Notation WF := (@WF T A teqb tltb).
+  Notation xmap := (@xmap T F).
+
+  Lemma l1_change_total (xlast : xmap) : forall (x : xmap) a,
+    (forall k, In k (keys x) -> In k (keys xlast)) ->
+    exists y, ofold (fun a kv =>
+                       match lookup teqb (fst kv) xlast with
+                       | None => Panic "eigenvector.rs:73 xlast.get unwrap"%string
+                       | Some l => Ok (nadd F a (nabs F (nsub F (snd kv) l)))
+                       end) x a = Ok y.
+  Proof.
+    induction x as [|kv t IH]; intros a Hk; cbn [ofold]; [eauto|].
+    destruct (lookup teqb (fst kv) xlast) as [l|] eqn:El.
+    - cbn [bind]. apply IH. intros k Hin. apply Hk. right. exact Hin.
+    - exfalso. apply (AMapOk.lookup_None_keys teqb teqb_spec) in El. apply El. apply Hk. left. reflexivity.
+  Qed.
+
+  Lemma step_total (g : gstate) weighted (x : xmap) :
+    WF g -> multi (sp g) = false -> (forall k, In k (keys x) <-> In k (names g)) ->
+    exists x' y, step teqb F g weighted x = Ok (x', y) /\ keys x' = keys x.
+  Proof.
+    intros W Hm Hk. unfold step.
+    destruct (spread_node_form teqb tltb teqb_spec tltb_asym tltb_total F g weighted W Hm x Hk) as (x1 & -> & Hk1 & _).
+    cbn [bind]. unfold l1_change.
+    destruct (l1_change_total x (normalise F x1) (n0 F)) as (y & ->).
+    { intros k Hin. rewrite normalise_keys, Hk1 in Hin. exact Hin. }
+    cbn [bind]. exists (normalise F x1), y. split; [reflexivity|]. rewrite normalise_keys. exact Hk1.
+  Qed.
+
+  Lemma iterate_total (g : gstate) weighted : WF g -> multi (sp g) = false ->
+    forall fuel thr (x : xmap), (forall k, In k (keys x) <-> In k (names g)) ->
+    (exists r, iterate teqb F fuel g weighted thr x = Ok r) \/
+    iterate teqb F fuel g weighted thr x = Err PowerIterationFailedConvergence.
+  Proof.
+    intros W Hm. induction fuel as [|f IH]; intros thr x Hk; cbn [iterate]; [right; reflexivity|].
+    destruct (step_total g weighted x W Hm Hk) as (x' & y & -> & Hk'). cbn [bind fst snd].
+    destruct (nltb F y thr); [left; eauto|]. apply IH. intros k. rewrite Hk'. apply Hk.
+  Qed.
+
+  (* every WF graph, weighted flag, max_iter and tolerance (None = the documented defaults): a
+     multi-edge graph is refused; otherwise a vector or the convergence error.  No Panic site; the
+     model's fuel is the loop bound max_iter itself, so OutOfFuel does not exist here. *)
+  Theorem total_eigenvector_centrality (g : gstate) weighted max_iter tol : WF g ->
+    if multi (sp g) then eigenvector_centrality teqb F g weighted max_iter tol = Err WrongMethod
+    else (exists x, eigenvector_centrality teqb F g weighted max_iter tol = Ok x) \/
+         eigenvector_centrality teqb F g weighted max_iter tol = Err PowerIterationFailedConvergence.
+  Proof.
+    intros W. unfold eigenvector_centrality. destruct (multi (sp g)) eqn:Hm; [reflexivity|].
+    apply (iterate_total g weighted W Hm). intros k. rewrite (init_keys_WF teqb tltb teqb_spec F g W). reflexivity.
+  Qed.
+End EigenTotal.
+
+(* ====================================================================================== *)
+(* betweenness_centrality / closeness_centrality (C05, C06): hop-count mode on EVERY WF graph,
+   weighted mode for ANY real weights (zero and negative included: the C05 / C06 value theorems
+   need positive weights, totality does not).  Not covered: weighted = true on a graph with an
+   edge WITHOUT weight (NaN) - the model has no NaN arithmetic and reports [site_nan]. *)
+From GV Require Import Model.Cent Model.Brandes Model.Closeness.
+From GV Require Import Proofs.AdjOk Proofs.CentBase Proofs.BrandesBfsOk Proofs.BrandesOk Proofs.ClosenessBfsOk
+     Proofs.DijkstraFuelOk Proofs.DerivedOk Proofs.DerivedContent Proofs.ClosenessStateOk Proofs.WFNode Proofs.WFEdge.
+
+Lemma conv_row_fst : forall weighted r r', conv_row weighted r = Some r' -> map fst r' = map fst r.
+Proof.
+  intros weighted. induction r as [|a t IH]; intros r' H; cbn [conv_row] in H; [inversion H; reflexivity|].
+  destruct (conv_entry weighted a) as [e|] eqn:Ee; [|discriminate].
+  destruct (conv_row weighted t) as [t'|]; [|discriminate]. inversion H. cbn [map]. f_equal; [|apply IH; reflexivity].
+  unfold conv_entry in Ee. destruct weighted; [destruct (snd a); inversion Ee|inversion Ee]; reflexivity.
+Qed.
+
+Lemma conv_adj_row_fst : forall weighted sv a, conv_adj weighted sv = Some a ->
+  forall v, map fst (get [] a v) = map fst (nth v sv []).
+Proof.
+  intros weighted. induction sv as [|r t IH]; intros a H v; cbn [conv_adj] in H.
+  - inversion H. unfold get. destruct v; reflexivity.
+  - destruct (conv_row weighted r) as [r'|] eqn:Er; [|discriminate].
+    destruct (conv_adj weighted t) as [t'|] eqn:Et; [|discriminate]. inversion H. unfold get.
+    destruct v as [|v]; cbn [nth]; [apply (conv_row_fst _ _ _ Er)|apply (IH t' eq_refl v)].
+Qed.
+
+Section CentralityTotal.
+  Context {T A : Type}.
+  Variable teqb : T -> T -> bool.
+  Variable tltb : T -> T -> bool.
+  Hypothesis teqb_spec : forall x y, teqb x y = true <-> x = y.
+  Hypothesis tltb_asym : forall x y, tltb x y = true -> tltb y x = false.
+  Hypothesis tltb_total : forall x y, tltb x y = false -> tltb y x = false -> x = y.
+  Notation gstate := (gstate T A).
+  Notation WF := (@WF T A teqb tltb).
+  Notation all_real := (@all_real T A).
+
+  (* the traversal adjacency of a coherent state converts, has one row per node, in-range
+     indexes and one entry per neighbour *)
+  Lemma conv_ok (tg : gstate) weighted :
+    WF tg -> (weighted = true -> all_real (get_all_edges tg)) ->
+    exists a, conv_adj weighted (successors_vec tg) = Some a /\
+              length a = number_of_nodes tg /\
+              adj_ok (length a) a = true /\ (forall v, NoDup (map fst (get [] a v))).
+  Proof.
+    intros Wt Hreal. destruct (wf_sv _ _ _ Wt) as (Hlen & Hrows).
+    assert (Hn : WFDefs.nn tg = number_of_nodes tg) by (unfold WFDefs.nn, number_of_nodes; apply (names_length tg)).
+    assert (Hconv : exists a, conv_adj weighted (successors_vec tg) = Some a).
+    { destruct weighted; [|apply conv_adj_false_total]. apply conv_adj_true_total.
+      intros row e Hrow He. apply In_nth_error in Hrow. destruct Hrow as (v & Hrow). destruct e as [j w].
+      destruct (entry_of_tg teqb tltb teqb_spec tg v j w row Wt Hrow He) as (x & y & _ & _ & Hne & Hw).
+      destruct (adjw_is_minimum teqb tltb teqb_spec tg x y Wt Hne) as (z & Ez & _).
+      { intros e He'. apply (stored_between_In teqb tltb teqb_spec tltb_total tg x y e Wt) in He'.
+        apply (Hreal eq_refl). apply He'. }
+      cbn [snd]. congruence. }
+    destruct Hconv as (a & Hconv). exists a. split; [exact Hconv|].
+    assert (Hla : length a = number_of_nodes tg) by (rewrite (conv_adj_length _ _ _ Hconv), Hlen; exact Hn).
+    split; [exact Hla|]. split.
+    - unfold adj_ok. apply andb_true_iff. split; [apply Nat.eqb_eq; reflexivity|].
+      apply forallb_forall. intros row Hrow. apply forallb_forall. intros e He. apply Nat.ltb_lt.
+      apply (In_nth _ _ []) in Hrow. destruct Hrow as (v & _ & Hrow).
+      assert (He' : In e (get [] a v)) by (unfold get; rewrite Hrow; exact He).
+      destruct (conv_adj_entries _ _ _ Hconv v e He') as (row0 & w & Hrow0 & Hin & _).
+      destruct (entry_of_tg teqb tltb teqb_spec tg v (fst e) w row0 Wt Hrow0 Hin) as (x & y & _ & Hy & _).
+      rewrite Hla, <- Hn. apply (name_at_lt tg (fst e) y Hy).
+    - intros v. rewrite (conv_adj_row_fst _ _ _ Hconv v).
+      destruct (nth_error (successors_vec tg) v) as [row|] eqn:Er.
+      + rewrite (nth_error_nth _ _ _ Er). apply (Hrows v row Er).
+      + apply nth_error_None in Er. rewrite (nth_overflow _ _ Er). constructor.
+  Qed.
+
+  Lemma node_by_index_some (g : gstate) i : WF g -> i < number_of_nodes g ->
+    exists nd, get_node_by_index g i = Some nd.
+  Proof.
+    intros W Hi. unfold get_node_by_index. rewrite (wf_nrev _ _ _ W i).
+    destruct (nth_error (nodes_vec g) i) as [nd|] eqn:E; [eauto|]. apply nth_error_None in E.
+    unfold number_of_nodes in Hi. lia.
+  Qed.
+
+  Lemma name_values_total site (g : gstate) vals : WF g -> length vals = number_of_nodes g ->
+    exists m, name_values site g vals = Ok m.
+  Proof.
+    intros W Hl. unfold name_values. apply omapM_total. intros iv Hiv.
+    assert (Hi : fst iv < number_of_nodes g).
+    { destruct iv as [i v]. apply in_combine_l in Hiv. apply in_seq in Hiv. cbn [fst]. lia. }
+    destruct (node_by_index_some g (fst iv) W Hi) as (nd & ->). eauto.
+  Qed.
+
+  (* the per-source stage never exhausts the fuel the model passes, whatever the costs *)
+  Lemma single_source_total lw weighted (a : qadj) src :
+    adj_ok (length a) a = true -> (forall v, NoDup (map fst (get [] a v))) -> src < length a ->
+    exists r, Brandes.single_source lw weighted a src = Some r.
+  Proof.
+    intros Hok Hnd Hsrc. unfold Brandes.single_source. destruct weighted.
+    - destruct (DijkstraFuelOk.bdijkstra_total a Hok lw src Hsrc) as (s & ->). eauto.
+    - destruct (bbfs_total a src Hok Hsrc Hnd) as (s & ->). eauto.
+  Qed.
+
+  Lemma bc_core_total lw weighted (a : qadj) :
+    adj_ok (length a) a = true -> (forall v, NoDup (map fst (get [] a v))) ->
+    exists bet, bc_core lw weighted a = Some bet.
+  Proof.
+    intros Hok Hnd.
+    assert (G : forall l bet0, (forall x, In x l -> x < length a) ->
+              exists bet, fold_left (fun ob src =>
+                 match ob with
+                 | None => None
+                 | Some b => match Brandes.single_source lw weighted a src with
+                             | Some r => Some (accumulate_r b r)
+                             | None => None
+                             end
+                 end) l (Some bet0) = Some bet).
+    { induction l as [|src t IH]; intros bet0 Hr; cbn [fold_left]; [eexists; reflexivity|].
+      destruct (single_source_total lw weighted a src Hok Hnd (Hr src (or_introl eq_refl))) as (r & ->).
+      apply IH. intros x Hx. apply Hr. right. exact Hx. }
+    assert (Hser : exists bet, bc_serial lw weighted a = Some bet).
+    { unfold bc_serial. apply G. intros x Hx. apply in_seq in Hx. lia. }
+    unfold bc_core. destruct (Nat.ltb PAR_THRESHOLD (length a)); [rewrite parallel_eq_serial|]; exact Hser.
+  Qed.
+
+  Theorem total_betweenness_centrality (g : gstate) lw weighted normalized :
+    WF g -> (weighted = true -> all_real (get_all_edges g)) ->
+    exists m, betweenness_centrality lw g weighted normalized = Ok m.
+  Proof.
+    intros W Hreal. unfold betweenness_centrality.
+    destruct (conv_ok g weighted W Hreal) as (a & -> & Hla & Hok & Hnd).
+    rewrite <- Hla, Hok. cbn [negb].
+    destruct (bc_core_total lw weighted a Hok Hnd) as (bet & Hb). rewrite Hb.
+    apply (name_values_total _ g _ W).
+    rewrite rescale_length, (bc_core_length _ _ _ _ Hb). exact Hla.
+  Qed.
+
+  (* closeness.rs get_node_centrality: `len - 1` cannot underflow when the distance sum is > 0 *)
+  Lemma get_node_centrality_total sp n wf : exists cc, get_node_centrality sp n wf = Ok cc.
+  Proof.
+    unfold get_node_centrality. destruct (qlt 0 (Qred (Closeness.qsum (map snd sp))) && Nat.ltb 1 n) eqn:E; [|eauto].
+    destruct sp as [|p t]; [|cbn [length]; destruct wf; eauto].
+    exfalso. cbn in E. discriminate.
+  Qed.
+
+  Lemma closeness_body_total (tg : gstate) lw weighted wf :
+    WF tg -> (weighted = true -> all_real (get_all_edges tg)) ->
+    exists m,
+      (let n := number_of_nodes tg in
+       match conv_adj weighted (successors_vec tg) with
+       | None => Panic site_nan
+       | Some a =>
+         if negb (adj_ok n a) then Panic "closeness.rs: successors_vec index out of range"%string
+         else omapM (closeness_one lw weighted wf tg a n) (seq 0 n)
+       end) = Ok m.
+  Proof.
+    intros Wt Hreal. cbv zeta.
+    destruct (conv_ok tg weighted Wt Hreal) as (a & -> & Hla & Hok & Hnd).
+    rewrite <- Hla, Hok. cbn [negb]. apply omapM_total. intros src Hsrc. apply in_seq in Hsrc.
+    assert (Hs : src < length a) by lia.
+    unfold closeness_one.
+    assert (Hsp : exists sp, sssp lw weighted a src = Some sp).
+    { unfold sssp. destruct weighted.
+      - apply (sssp_weighted_total a Hok lw src Hs).
+      - apply (sssp_unweighted_total a src Hok Hs). }
+    destruct Hsp as (sp & ->). destruct (get_node_centrality_total sp (length a) wf) as (cc & ->). cbn [bind].
+    rewrite Hla in Hs. destruct (node_by_index_some tg src Wt Hs) as (nd & ->). eauto.
+  Qed.
+
+  Theorem total_closeness_centrality (g : gstate) lw weighted wf :
+    WF g -> (weighted = true -> all_real (get_all_edges g)) ->
+    exists m, closeness_centrality teqb tltb lw g weighted wf = Ok m.
+  Proof.
+    intros W Hreal. unfold closeness_centrality. destruct (directed (sp g)) eqn:Hd.
+    - destruct (reverse_content teqb tltb teqb_spec tltb_total g W Hd) as (h & Hh & _ & _ & Hp).
+      rewrite Hh. cbn [bind].
+      destruct (reverse_WF teqb tltb teqb_spec tltb_asym tltb_total g h Hh) as (Wh & _).
+      apply (closeness_body_total h lw weighted wf Wh).
+      intros Hw e He. unfold get_all_edges in He. apply (Permutation_in _ Hp) in He.
+      apply in_map_iff in He. destruct He as (e0 & <- & H0). cbn. apply (Hreal Hw). exact H0.
+    - cbn [bind]. apply (closeness_body_total g lw weighted wf W Hreal).
+  Qed.
+End CentralityTotal.
